@@ -260,6 +260,31 @@ struct ScriptedTRDirection {
     Params get_params() const { return {}; }
 };
 
+// ---------------------------------------------------------------------------------------------- observed NewtonTRDirection (PANTRDIR)
+// (added for the PANTRDIR whole-run check) the REAL NewtonTRDirection; apply() additionally reports its arguments and results:
+// γ, x (= x̂ₖ of the solver), p, ∇ψ, radius, the returned q and model value, the index set J of that call and the number of
+// problem-function evaluations made inside the call.  Direction "newtontr_obs"; everything else is inherited unchanged.
+static std::vector<std::string> g_trcalls;
+struct ObsNewtonTRDirection : alpaqa::NewtonTRDirection<config_t> {
+    using Base = alpaqa::NewtonTRDirection<config_t>;
+    ObsNewtonTRDirection() = default;
+    ObsNewtonTRDirection(const typename Base::Params &params) : Base{params} {}
+    real_t apply(real_t γ, crvec x, crvec x̂, crvec p, crvec grad, real_t radius, rvec q) const {
+        long e0    = H.evals;
+        real_t val = Base::apply(γ, x, x̂, p, grad, radius, q);
+        long e1    = H.evals;
+        indexvec JK(x.size());
+        auto nJ = this->problem->eval_inactive_indices_res_lna(γ, x, grad, JK);
+        std::vector<long> J(JK.data(), JK.data() + nJ);
+        Json j;
+        j.d("gamma", γ).v("x", x).v("xh", x̂).v("p", p).v("grad", grad).d("Delta", radius).v("q", q).d("val", val);
+        j.iv("J", J).i("evals", e1 - e0);
+        g_trcalls.push_back(j.str());
+        return val;
+    }
+    std::string get_name() const { return Base::get_name(); }
+};
+
 // ---------------------------------------------------------------------------------------------- recording
 struct Rec {
     std::vector<std::string> lines;
@@ -318,6 +343,7 @@ void emit_inner_stats(Json &j, const Stats &s) {
     if constexpr (requires { s.sum_τ; }) j.d("sum_tau", s.sum_τ);
     if constexpr (requires { s.accelerated_step_rejected; }) j.i("accelerated_step_rejected", s.accelerated_step_rejected);
     if constexpr (requires { s.direction_failures; }) j.i("direction_failures", s.direction_failures);
+    if constexpr (requires { s.direction_update_rejected; }) j.i("direction_update_rejected", s.direction_update_rejected); // (added for PANTRDIR)
     if constexpr (requires { s.final_γ; }) j.d("final_gamma", s.final_γ);
     if constexpr (requires { s.final_ψ; }) j.d("final_psi", s.final_ψ);
     if constexpr (requires { s.final_h; }) j.d("final_h", s.final_h);
@@ -413,6 +439,7 @@ int main() {
         R = Rec{};
         g_opts.clear();
         g_script.clear();
+        g_trcalls.clear();
         try {
             long n = vio::ri(), m = vio::ri();
             VProblem vp{n, m};
@@ -462,6 +489,14 @@ int main() {
                 d.initial = g_script_initial;
                 alpaqa::PANTRSolver<ScriptedTRDirection> s{sp, std::move(d)};
                 run_solver(s, vp, r, j);
+            } else if (solver == "pantr" && dir == "newtontr_obs") { // (added for PANTRDIR) same stack, apply() calls reported
+                using Dir = ObsNewtonTRDirection;
+                alpaqa::PANTRParams<config_t> sp;
+                apply_params(sp, "solver");
+                typename Dir::Params dp;
+                set_dir_params<Dir>(dp);
+                alpaqa::PANTRSolver<Dir> s{sp, Dir{dp}};
+                run_solver(s, vp, r, j);
             } else if (solver == "pantr") {
                 using Dir = alpaqa::NewtonTRDirection<config_t>;
                 alpaqa::PANTRParams<config_t> sp;
@@ -485,6 +520,12 @@ int main() {
         for (size_t a = 0; a < R.lines.size(); ++a) recs += (a ? "," : "") + R.lines[a];
         recs += "]";
         j.raw("records", recs);
+        if (!g_trcalls.empty()) {
+            std::string tc = "[";
+            for (size_t a = 0; a < g_trcalls.size(); ++a) tc += (a ? "," : "") + g_trcalls[a];
+            tc += "]";
+            j.raw("trcalls", tc);
+        }
         j.emit();
         std::cout.flush();
     }
